@@ -33,7 +33,7 @@ def steady_levels(m, names):
 
 
 def has_extra(sc):
-    return any(fr(x) != 0 for row in sc.get("dsd", ()) for x in row)
+    return any(fr(x) != 0 for row in sc.get("dsd", ()) for x in row) or any(fr(x) != 0 for x in sc.get("dsw", ()))
 
 
 def run_filter(sc, out, deviation=False, rescale=False, fresh=True):
@@ -51,6 +51,10 @@ def run_filter(sc, out, deviation=False, rescale=False, fresh=True):
         # time-varying standard deviations supplied as data: only the periods that differ are given, the others fall back to the parameter
         for k, n in enumerate(out["shocks"]):
             vals = [math.sqrt(float(fr(sc["sd"][k]) + fr(sc["dsd"][t][k]))) if fr(sc["dsd"][t][k]) != 0 else math.nan for t in range(TK)]
+            if not all(math.isnan(v) for v in vals):
+                db["std_" + n] = ir.Series(start=per(1), values=np.array(vals, dtype=float))
+        for n in out["mshocks"]:
+            vals = [math.sqrt(float(fr(sc["sdw"]) + fr(sc["dsw"][t]))) if fr(sc["dsw"][t]) != 0 else math.nan for t in range(TK)]
             if not all(math.isnan(v) for v in vals):
                 db["std_" + n] = ir.Series(start=per(1), values=np.array(vals, dtype=float))
         kw["stds_from_data"] = True
